@@ -107,3 +107,10 @@ impl TableRefresh {
         self.curr_refresh_bucket += 1;
     }
 }
+
+// Verification harnesses (compiled only by `cargo kani`; inert otherwise).
+#[cfg(kani)]
+#[allow(dead_code, unused_imports)]
+mod verif {
+    include!(concat!(env!("BTDHT_VERIF"), "/harness/refresh.rs"));
+}
